@@ -29,7 +29,11 @@ struct C05 : Scenario {
         Cfg c;
         c.grid = tier == "quick" ? r.range(64, 88) : r.range(64, 136);
         c.pssize = 12;
-        c.steps = r.chance(0.3) ? r.range(300, 600) : r.range(50, 250);
+        // steps per period: the program's default is 1000; 20 % of the runs use 800-2000 (per-step kicks of 1e-3 cell and less),
+        // with a shorter damping time and run so that they stay affordable
+        bool many = r.chance(0.2);
+        c.steps = many ? r.range(800, 2000) : r.chance(0.3) ? r.range(300, 600) : r.range(50, 250);
+        if (many) c.grid = r.range(64, 72);
         c.interp = 4;    // (quadratic interpolation adds its own distortion of the equilibrium on these grids; the default cubic scheme is used)
         c.deriv = r.pick(std::vector<long>{3, 4});
         c.linearRF = true;
@@ -44,9 +48,9 @@ struct C05 : Scenario {
         else if (kind == 2) { c.gap = 0.03; c.useCSR = false; c.wallcond = 5e7; c.currents = {r.loguniform(1e-3, 1e-2)}; }
         else { c.gap = 0.03; c.useCSR = false; c.collimator = 0.005; c.currents = {r.loguniform(0.5e-3, 5e-3)}; }
         Derived d0 = derive(c);
-        double Td = r.uniform(7, 11);                 // damping time in synchrotron periods
+        double Td = many ? r.uniform(3, 4) : r.uniform(7, 11);                 // damping time in synchrotron periods
         c.tdamp = Td / d0.fs;
-        c.rotations = std::round(r.uniform(50, 70));
+        c.rotations = many ? std::round(r.uniform(24, 30)) : std::round(r.uniform(50, 70));
         c.outstep = c.steps; c.saveps = 0;
         c.zoom = r.chance(0.5) ? 1 : std::round(r.uniform(0.8, 1.2) * 100) / 100;
         c.to_plan(p);
